@@ -159,6 +159,10 @@ def run(ctx, replay=None):
                                              'trusted_base': common.TRUSTED_BASE, 'explanation': 'build failed'}, [])
         return
     po = common.proof_obligations(ctx.prop)
+    ck = common.coqchk(ctx.prop) if ctx.tier == 'thorough' else None
+    if ck is not None and not ck['ok']:
+        path = common.write_replay(ctx, 'coqchk', {'kind': 'coqchk-failed', 'summary': ck['summary']})
+        common.violation(ctx, path, found_input=False)
     bad = common.hygiene()
     n_obl = len(po['theorems'])
     closed = [t for t in po['theorems'] if po['assumptions'].get(t) == 'Closed under the global context']
@@ -347,7 +351,7 @@ def run(ctx, replay=None):
         'obligations': n_obl, 'discharged': discharged,
         'checker_cmd': 'coqc %s %s  (after ./build.sh: coq_makefile + make, full .vo)' % (' '.join(common.COQFLAGS), po['file']),
         'trusted_base': common.TRUSTED_BASE + ['Print Assumptions: ' + '; '.join('%s: %s' % (t, po['assumptions'].get(t, 'NOT PRINTED')) for t in po['theorems'])],
-        'theorems': po['theorems'], 'axioms': axioms, 'hygiene_hits': bad,
+        'coqchk': ({'axioms': ck['axioms'], 'ok': ck['ok']} if ck else 'thorough tier only'), 'theorems': po['theorems'], 'axioms': axioms, 'hygiene_hits': bad,
         'evaluations': len(progs), 'distinct_nontrivial': nontrivial,
         'rule': 'programs drawn by harness/gen.py from profiles %s with seed %d (plus corpus); non-trivial = accepted with >= 3 model assertions, or rejected; distinct by full program text' % (cfg['profiles'], ctx.seed),
         'samples': samples,
